@@ -1827,4 +1827,1076 @@ theorem sep_run (l : List (Op × Bool)) : ∀ (w : World) (σ : Nat → Bool), S
       exact ⟨hsc, hsep, fun _ _ _ => ⟨rfl, rfl⟩⟩
 
 
+
+/-! ### contents after the row loops -/
+
+theorem clearRows_rows (l : List Nat) : ∀ (w : World) (x : Nat),
+    (w.clearRows l).rows x = if x ∈ l then Row.zero else w.rows x := by
+  induction l with
+  | nil => intro w x; simp [World.clearRows]
+  | cons i is ih =>
+    intro w x
+    simp only [World.clearRows, ih]
+    by_cases hx : x ∈ is
+    · simp [hx]
+    · by_cases hxi : x = i
+      · subst hxi; simp [hx]
+      · simp [hx, hxi, upd_ne _ _ _ _ hxi]
+
+theorem copyRowsSeq_other (l : List (Nat × Nat)) : ∀ (w : World) (x : Nat), x ∉ l.map Prod.fst →
+    (w.copyRowsSeq l).rows x = w.rows x := by
+  induction l with
+  | nil => intro w x _; rfl
+  | cons p ps ih =>
+    intro w x hx
+    obtain ⟨t, s⟩ := p
+    simp at hx
+    simp only [World.copyRowsSeq]
+    rw [ih _ x (by simpa using hx.2)]
+    simp [upd_ne _ _ _ _ hx.1]
+
+/-- `SparseArray.copy_like` row by row: distinct targets, none of them a source -/
+theorem copyRowsSeq_read (ts : List Nat) : ∀ (ss : List Nat) (w : World), ts.Nodup → (∀ t ∈ ts, t ∉ ss) →
+    ts.length = ss.length → ts.map (w.copyRowsSeq (ts.zip ss)).rows = ss.map w.rows := by
+  induction ts with
+  | nil => intro ss w _ _ hl; cases ss <;> simp_all
+  | cons t ts ih =>
+    intro ss w hnd hdis hl
+    cases ss with
+    | nil => simp at hl
+    | cons s ss =>
+      simp at hl hnd
+      simp only [List.zip_cons_cons, World.copyRowsSeq, List.map_cons]
+      have hts : t ≠ s := fun h => hdis t (by simp) (by simp [h])
+      rw [ih ss _ hnd.2 (fun x hx hxs => hdis x (by simp [hx]) (by simp [hxs])) hl]
+      congr 1
+      · rw [copyRowsSeq_other]
+        · simp
+        · intro hmem
+          simp at hmem
+          obtain ⟨b, hb⟩ := hmem
+          exact hnd.1 (List.of_mem_zip hb).1
+      · apply List.map_congr_left
+        intro r hr
+        have : r ≠ t := fun h => hdis t (by simp) (by simp [← h, hr])
+        simp [upd_ne _ _ _ _ this]
+
+
+theorem idxOf?_lt {α : Type} [BEq α] [LawfulBEq α] (l : List α) (a : α) (i : Nat) (h : l.idxOf? a = some i) :
+    i < l.length ∧ l[i]? = some a := by
+  induction l generalizing i with
+  | nil => simp [List.idxOf?] at h
+  | cons x xs ih =>
+    simp only [List.idxOf?_cons] at h
+    by_cases hx : x == a
+    · simp [hx] at h; subst h; simp at hx; simp [hx]
+    · simp [hx] at h
+      obtain ⟨j, hj, rfl⟩ := h
+      have := ih j hj
+      refine ⟨by simp; omega, ?_⟩
+      simpa using this.2
+
+theorem phIdx_lt (tps : List Ph) (p : Ph) (m : Nat) (h : phIdx tps p = some m) : m < tps.length := by
+  unfold phIdx at h
+  split at h
+  · next i hi => cases h; exact (idxOf?_lt _ _ _ hi).1
+  · split at h
+    · next q _ => exact (idxOf?_lt _ _ _ h).1
+    · cases h
+
+/-- the loop `for phase, row in other: rows[phase_indexer(phase)] := row` -/
+theorem assignByPhase_spec (tps : List Ph) (trows : List Nat) (d : Nat) (l : List (Ph × Nat)) :
+    ∀ (w w' : World), w.assignByPhase tps trows d l = .ok w' → l.Nodup →
+      (∀ a ∈ l, ∀ b ∈ l, phIdx tps a.1 = phIdx tps b.1 → phIdx tps a.1 ≠ none → a = b) →
+      (∀ m, m < tps.length → ∀ b ∈ l, trows.getD m d ≠ b.2) →
+      (∀ m n, m < tps.length → n < tps.length → trows.getD m d = trows.getD n d → m = n) →
+      (∀ a ∈ l, ∃ m, phIdx tps a.1 = some m ∧ w'.rows (trows.getD m d) = w.rows a.2) ∧
+      (∀ x, (∀ a ∈ l, ∀ m, phIdx tps a.1 = some m → trows.getD m d ≠ x) → w'.rows x = w.rows x) := by
+  induction l with
+  | nil => intro w w' h _ _ _ _; cases h; simp
+  | cons a l ih =>
+    intro w w' h hnd hinj hdis hdist
+    obtain ⟨q, sr⟩ := a
+    simp only [World.assignByPhase] at h
+    split at h
+    · cases h
+    · next k hk =>
+      simp at hnd
+      obtain ⟨ih1, ih2⟩ := ih _ w' h hnd.2
+        (fun a ha b hb => hinj a (by simp [ha]) b (by simp [hb]))
+        (fun m hm b hb => hdis m hm b (by simp [hb]))
+        hdist
+      constructor
+      · intro a ha
+        simp at ha
+        rcases ha with rfl | ha
+        · refine ⟨k, hk, ?_⟩
+          rw [ih2]
+          · simp
+          · intro b hb m hm heq
+            have hmk : m = k := hdist m k (phIdx_lt _ _ _ hm) (phIdx_lt _ _ _ hk) heq
+            subst hmk
+            have := hinj b (by simp [hb]) (q, sr) (by simp) (by simp [hm, hk]) (by simp [hm])
+            subst this
+            exact hnd.1 hb
+        · obtain ⟨m, hm, hr⟩ := ih1 a ha
+          refine ⟨m, hm, ?_⟩
+          rw [hr]
+          have := hdis k (phIdx_lt _ _ _ hk) a (by simp [ha])
+          show upd w.rows (trows.getD k d) (w.rows sr) a.2 = w.rows a.2
+          exact upd_ne _ _ _ _ (Ne.symm this)
+      · intro x hx
+        rw [ih2 x (fun a ha m hm => hx a (by simp [ha]) m hm)]
+        have := hx (q, sr) (by simp) k hk
+        show upd w.rows (trows.getD k d) (w.rows sr) x = w.rows x
+        exact upd_ne _ _ _ _ (Ne.symm this)
+
+
+theorem nodup_map_on' {α β : Type} (f : α → β) : ∀ (l : List α), (∀ x ∈ l, ∀ y ∈ l, f x = f y → x = y) → l.Nodup →
+    (l.map f).Nodup := by
+  intro l
+  induction l with
+  | nil => intro _ _; simp
+  | cons a l ih =>
+    intro h hnd
+    rw [List.nodup_cons] at hnd
+    simp only [List.map_cons, List.nodup_cons]
+    refine ⟨?_, ih (fun x hx y hy => h x (by simp [hx]) y (by simp [hy])) hnd.2⟩
+    intro hmem
+    simp only [List.mem_map] at hmem
+    obtain ⟨b, hb, hfb⟩ := hmem
+    have := h b (by simp [hb]) a (by simp) hfb
+    subst this
+    exact hnd.1 hb
+
+theorem nodup_getElem_inj' {α : Type} : ∀ (l : List α), l.Nodup → ∀ i j (hi : i < l.length) (hj : j < l.length),
+    l[i] = l[j] → i = j := by
+  intro l hnd i j hi hj h
+  rw [List.nodup_iff_pairwise_ne, List.pairwise_iff_getElem] at hnd
+  rcases Nat.lt_trichotomy i j with hlt | heq | hgt
+  · exact absurd h (hnd i j hi hj hlt)
+  · exact heq
+  · exact absurd h.symm (hnd j i hj hi hgt)
+
+/-! ### phase tuples -/
+
+theorem Ph.all_nodup : Ph.all.Nodup := by decide
+
+theorem mem_Ph_all (p : Ph) : p ∈ Ph.all := by cases p <;> decide
+
+theorem normPh_nodup (l : List Ph) : (normPh l).Nodup := List.Nodup.sublist List.filter_sublist Ph.all_nodup
+
+theorem mem_normPh (l : List Ph) (p : Ph) : p ∈ normPh l ↔ p ∈ l := by
+  simp [normPh, mem_Ph_all]
+
+theorem normPh_congr (l l' : List Ph) (h : ∀ p, p ∈ l ↔ p ∈ l') : normPh l = normPh l' := by
+  unfold normPh
+  apply List.filter_congr
+  intro p _
+  simp [h p]
+
+theorem normPh_idem_append (ps other : List Ph) (hnp : normPh ps = ps) (hsub : ∀ p ∈ other, p ∈ ps) :
+    normPh (ps ++ other) = ps := by
+  rw [← hnp]
+  apply normPh_congr
+  intro p
+  rw [hnp]
+  simp
+  exact hsub p
+
+theorem idxOf?_some_of_mem {α : Type} [BEq α] [LawfulBEq α] (l : List α) (a : α) (h : a ∈ l) :
+    ∃ i, l.idxOf? a = some i := by
+  induction l with
+  | nil => simp at h
+  | cons x xs ih =>
+    simp only [List.idxOf?_cons]
+    by_cases hx : x == a
+    · exact ⟨0, by simp [hx]⟩
+    · have : a ∈ xs := by
+        simp at h hx
+        rcases h with h | h
+        · exact absurd h.symm hx
+        · exact h
+      obtain ⟨i, hi⟩ := ih this
+      exact ⟨i + 1, by simp [hx, hi]⟩
+
+theorem idxOf?_none_of_not_mem {α : Type} [BEq α] [LawfulBEq α] (l : List α) (a : α) (h : a ∉ l) :
+    l.idxOf? a = none := by
+  induction l with
+  | nil => simp [List.idxOf?]
+  | cons x xs ih =>
+    simp only [List.idxOf?_cons]
+    simp at h
+    have hx : (x == a) = false := by simp; exact fun h' => h.1 h'.symm
+    simp [hx, ih h.2]
+
+/-- `_expand_phases`, what matters when the rows are emptied afterwards -/
+theorem expand_spec (w : World) (tim : Nat) (other ps : List Ph) (a : Nat) (hm : w.imols tim = .mat ps a)
+    (hnp : normPh ps = ps) (hlen : (w.arrs a).length = ps.length) (hnd : (w.arrs a).Nodup)
+    (hlt : ∀ r ∈ w.arrs a, r < w.next) :
+    (w.expand tim other).imols tim = .mat (normPh (ps ++ other)) a ∧
+    ((w.expand tim other).arrs a).length = (normPh (ps ++ other)).length ∧
+    ((w.expand tim other).arrs a).Nodup ∧
+    (∀ r ∈ (w.expand tim other).arrs a, r ∈ w.arrs a ∨ (w.next ≤ r ∧ r < (w.expand tim other).next)) ∧
+    (∀ x, x < w.next → (w.expand tim other).rows x = w.rows x) ∧
+    (∀ r ∈ (w.expand tim other).arrs a, w.next ≤ r → (w.expand tim other).rows r = Row.zero) ∧
+    (w.expand tim other).phs = w.phs ∧ (w.expand tim other).tcs = w.tcs ∧ (w.expand tim other).strs = w.strs ∧
+    (∀ y, y ≠ tim → (w.expand tim other).imols y = w.imols y) ∧
+    (∀ y, y ≠ a → (w.expand tim other).arrs y = w.arrs y) ∧ w.next ≤ (w.expand tim other).next := by
+  unfold World.expand
+  simp only [hm]
+  split
+  · next hemp =>
+    have hsub : ∀ p ∈ other, p ∈ ps := by
+      intro p hp
+      apply Decidable.byContradiction
+      intro hnot
+      have : p ∈ (normPh other).filter fun p => !ps.contains p := by
+        simp [mem_normPh, hp, hnot]
+      rw [List.isEmpty_iff] at hemp
+      rw [hemp] at this
+      simp at this
+    rw [normPh_idem_append ps other hnp hsub]
+    exact ⟨hm, hlen, hnd, fun r hr => Or.inl hr, fun _ _ => rfl,
+      fun r hr hge => absurd (hlt r hr) (by omega), rfl, rfl, rfl, fun _ _ => rfl, fun _ _ => rfl,
+      Nat.le_refl _⟩
+  · generalize hnewp : ((normPh other).filter fun p => !ps.contains p) = newp
+    have hfresh : (w.newRows (newp.map fun _ => Row.zero)).2 = List.range' w.next newp.length := by
+      rw [newRows_ids]; simp
+    have hnewp_nd : newp.Nodup := by rw [← hnewp]; exact List.Nodup.sublist List.filter_sublist (normPh_nodup _)
+    have hnewp_mem : ∀ p, p ∈ newp ↔ (p ∈ other ∧ p ∉ ps) := by
+      intro p; rw [← hnewp]; simp [mem_normPh]
+    -- the row chosen for phase `p`
+    let f : Ph → Nat := fun p =>
+      match ps.idxOf? p with
+      | some i => (w.arrs a).getD i a
+      | none => (w.newRows (newp.map fun _ => Row.zero)).2.getD ((newp.idxOf? p).getD 0) a
+    have hf_old : ∀ p ∈ ps, f p ∈ w.arrs a ∧ ∃ i, ps.idxOf? p = some i ∧ (w.arrs a)[i]? = some (f p) := by
+      intro p hp
+      obtain ⟨i, hi⟩ := idxOf?_some_of_mem ps p hp
+      have hil := (idxOf?_lt ps p i hi).1
+      have : f p = (w.arrs a).getD i a := by simp [f, hi]
+      have hi' : i < (w.arrs a).length := by omega
+      rw [this]
+      simp [List.getD_eq_getElem?_getD, List.getElem?_eq_getElem hi']
+      exact ⟨i, hi, List.getElem?_eq_getElem hi'⟩
+    have hf_new : ∀ p, p ∉ ps → p ∈ newp → w.next ≤ f p ∧ f p < w.next + newp.length ∧
+        ∃ j, newp.idxOf? p = some j ∧ f p = w.next + j := by
+      intro p hp hpn
+      obtain ⟨j, hj⟩ := idxOf?_some_of_mem newp p hpn
+      have hjl := (idxOf?_lt newp p j hj).1
+      have hnone := idxOf?_none_of_not_mem ps p hp
+      have : f p = w.next + j := by
+        simp only [f, hnone, hj, Option.getD_some, hfresh]
+        simp [List.getD_eq_getElem?_getD, List.getElem?_range', hjl]
+      exact ⟨by omega, by omega, j, hj, this⟩
+    have hall_mem : ∀ p, p ∈ normPh (ps ++ other) → p ∈ ps ∨ (p ∉ ps ∧ p ∈ newp) := by
+      intro p hp
+      rw [mem_normPh] at hp
+      by_cases h : p ∈ ps
+      · exact Or.inl h
+      · right
+        simp at hp
+        rcases hp with hp | hp
+        · exact absurd hp h
+        · exact ⟨h, (hnewp_mem p).2 ⟨hp, h⟩⟩
+    refine ⟨by simp, by simp, ?_, ?_, ?_, ?_, by simp, by simp, by simp, ?_, ?_, by simp⟩
+    · -- Nodup
+      simp only [setImol_arrs, setArr_arrs, upd_same]
+      show ((normPh (ps ++ other)).map f).Nodup
+      refine nodup_map_on' f _ ?_ (normPh_nodup _)
+      intro p1 hp1 p2 hp2 heq
+      rcases hall_mem p1 hp1 with h1 | ⟨h1, h1n⟩ <;> rcases hall_mem p2 hp2 with h2 | ⟨h2, h2n⟩
+      · obtain ⟨_, i1, hi1, hg1⟩ := hf_old p1 h1
+        obtain ⟨_, i2, hi2, hg2⟩ := hf_old p2 h2
+        rw [heq] at hg1
+        have hl1 := (idxOf?_lt ps p1 i1 hi1)
+        have hl2 := (idxOf?_lt ps p2 i2 hi2)
+        have h1' : i1 < (w.arrs a).length := by omega
+        have h2' : i2 < (w.arrs a).length := by omega
+        have : i1 = i2 := by
+          rw [List.getElem?_eq_getElem h1'] at hg1
+          rw [List.getElem?_eq_getElem h2'] at hg2
+          have e : (w.arrs a)[i1] = (w.arrs a)[i2] := by
+            injection hg1 with e1; injection hg2 with e2; rw [e1, e2]
+          exact nodup_getElem_inj' _ hnd i1 i2 h1' h2' e
+        subst this
+        have := hl1.2.symm.trans hl2.2
+        injection this
+      · have := hlt _ (hf_old p1 h1).1
+        have := (hf_new p2 h2 h2n).1
+        omega
+      · have := hlt _ (hf_old p2 h2).1
+        have := (hf_new p1 h1 h1n).1
+        omega
+      · obtain ⟨_, _, j1, hj1, e1⟩ := hf_new p1 h1 h1n
+        obtain ⟨_, _, j2, hj2, e2⟩ := hf_new p2 h2 h2n
+        have : j1 = j2 := by omega
+        subst this
+        have := (idxOf?_lt newp p1 j1 hj1).2.symm.trans (idxOf?_lt newp p2 j1 hj2).2
+        injection this
+    · intro r hr
+      simp only [setImol_arrs, setArr_arrs, upd_same] at hr
+      have hr' : r ∈ (normPh (ps ++ other)).map f := hr
+      simp only [List.mem_map] at hr'
+      obtain ⟨p, hp, rfl⟩ := hr'
+      rcases hall_mem p hp with h | ⟨h, hn⟩
+      · exact Or.inl (hf_old p h).1
+      · right
+        have := hf_new p h hn
+        simp
+        omega
+    · intro x hx
+      simp [newRows_old w _ x hx]
+    · intro r hr hge
+      simp only [setImol_arrs, setArr_arrs, upd_same] at hr
+      have hr' : r ∈ (normPh (ps ++ other)).map f := hr
+      simp only [List.mem_map] at hr'
+      obtain ⟨p, hp, rfl⟩ := hr'
+      rcases hall_mem p hp with h | ⟨h, hn⟩
+      · exact absurd (hlt _ (hf_old p h).1) (by omega)
+      · obtain ⟨_, _, j, hj, e⟩ := hf_new p h hn
+        have hjl := (idxOf?_lt newp p j hj).1
+        simp only [setImol_rows, setArr_rows]
+        have hread := newRows_read (newp.map fun _ => Row.zero) w
+        rw [hfresh] at hread
+        have := congrArg (fun l => l[j]?) hread
+        simp [hjl] at this
+        rw [e]
+        exact this
+    · intro y hy; simp [upd_ne _ _ _ _ hy]
+    · intro y hy; simp [upd_ne _ _ _ _ hy]
+
+
+
+/-! ### `copy_like` makes the conditions equal -/
+
+/-- a multi-phase indexer has a sorted duplicate-free phase tuple and one distinct row object per phase -/
+def WFImol (w : World) (im : Nat) : Prop :=
+  match w.imols im with
+  | .chem .. => True
+  | .mat ps a => normPh ps = ps ∧ (w.arrs a).length = ps.length ∧ (w.arrs a).Nodup
+
+/-- The indexer `im` of world `w` holds exactly the material `(sps, svals)` (phases and row contents
+of a source): each source phase has arrived in the row that the phase lookup of `im` gives for it
+(the exact label if `im` has it, else the label of the other case), and every other row is empty. -/
+structure HoldsExactly (w : World) (im : Nat) (sps : List Ph) (svals : List Row) : Prop where
+  arrive : ∀ (k : Nat) (p : Ph) (r : Row), sps[k]? = some p → svals[k]? = some r →
+    ∃ m tr, phIdx (w.phasesOf im) p = some m ∧ (w.rowIdsOf im)[m]? = some tr ∧ w.rows tr = r
+  rest : ∀ (m tr : Nat), (w.rowIdsOf im)[m]? = some tr → (∀ p ∈ sps, phIdx (w.phasesOf im) p ≠ some m) →
+    w.rows tr = Row.zero
+
+theorem phIdx_of_idxOf {ps : List Ph} {p : Ph} {i : Nat} (h : ps.idxOf? p = some i) : phIdx ps p = some i := by
+  simp [phIdx, h]
+
+theorem idxOf?_getElem_nodup {α : Type} [BEq α] [LawfulBEq α] (l : List α) (hnd : l.Nodup) (k : Nat) (a : α)
+    (h : l[k]? = some a) : l.idxOf? a = some k := by
+  have hmem : a ∈ l := List.mem_of_getElem? h
+  obtain ⟨i, hi⟩ := idxOf?_some_of_mem l a hmem
+  have := idxOf?_lt l a i hi
+  have hk : k < l.length := by
+    rcases Nat.lt_or_ge k l.length with h' | h'
+    · exact h'
+    · simp [List.getElem?_eq_none h'] at h
+  rw [List.getElem?_eq_getElem hk] at h
+  rw [List.getElem?_eq_getElem this.1] at this
+  have e : l[i] = l[k] := by
+    have h1 := this.2; injection h1 with h1; injection h with h2; rw [h1, h2]
+  rw [hi, nodup_getElem_inj' l hnd i k this.1 hk e]
+
+theorem phIdx_single (p : Ph) : phIdx [p] p = some 0 := by
+  simp [phIdx, List.idxOf?_cons]
+
+/-- single-phase target: after `ChemicalIndexer.copy_like` -/
+theorem holds_chem {w : World} {im ph r : Nat} (hm : w.imols im = .chem ph r) (sp : Ph) (v : Row)
+    (hph : w.phs ph = sp) (hr : w.rows r = v) : HoldsExactly w im [sp] [v] := by
+  constructor
+  · intro k p r' hk hv
+    cases k with
+    | zero =>
+      simp at hk hv
+      subst hk hv
+      exact ⟨0, r, by simp [World.phasesOf, hm, hph, phIdx_single], by simp [World.rowIdsOf, hm], hr⟩
+    | succ k => simp at hk
+  · intro m tr hm' hall
+    simp [World.rowIdsOf, hm] at hm'
+    have : m = 0 := by
+      cases m with
+      | zero => rfl
+      | succ m => simp at hm'
+    subst this
+    exact absurd (by simp [World.phasesOf, hm, hph, phIdx_single]) (hall sp (by simp))
+
+theorem chemCopyLike_value (w : World) (same : Bool) (tph trow : Nat) (tpkg : List Nat) (sr : Nat) (sp : Ph)
+    (spkg : List Nat) (w' : World) (hne : trow ≠ sr)
+    (h : w.chemCopyLike same tph trow tpkg sr sp spkg = .ok w') :
+    w'.rows trow = w.rows sr ∧ w'.phs tph = sp ∧ (∀ x, x ≠ trow → w'.rows x = w.rows x) ∧
+    (∀ x, x ≠ tph → w'.phs x = w.phs x) := by
+  unfold World.chemCopyLike at h
+  split at h
+  · cases h
+    simp
+    exact ⟨fun x hx => upd_ne _ _ _ _ hx, fun x hx => upd_ne _ _ _ _ hx⟩
+  · simp only at h
+    split at h
+    · cases h
+      simp [upd_ne _ _ _ _ (Ne.symm hne)]
+      exact ⟨fun x hx => by simp [upd_ne _ _ _ _ hx], fun x hx => upd_ne _ _ _ _ hx⟩
+    · cases h
+
+
+theorem getD_eq_of_getElem? {l : List Nat} {m x d : Nat} (h : l[m]? = some x) : l.getD m d = x := by
+  simp [List.getD_eq_getElem?_getD, h]
+
+theorem getElem?_of_lt_getD {l : List Nat} {m d : Nat} (h : m < l.length) : l[m]? = some (l.getD m d) := by
+  simp [List.getD_eq_getElem?_getD, List.getElem?_eq_getElem h]
+
+theorem holds_mat {w : World} {im a : Nat} {tps : List Ph} (hm : w.imols im = .mat tps a)
+    (hlen : (w.arrs a).length = tps.length) (sps : List Ph) (svals : List Row)
+    (harr : ∀ (k : Nat) (p : Ph) (r : Row), sps[k]? = some p → svals[k]? = some r →
+      ∃ m, phIdx tps p = some m ∧ w.rows ((w.arrs a).getD m im) = r)
+    (hrest : ∀ m, m < tps.length → (∀ p ∈ sps, phIdx tps p ≠ some m) →
+      w.rows ((w.arrs a).getD m im) = Row.zero) : HoldsExactly w im sps svals := by
+  constructor
+  · intro k p r hk hv
+    obtain ⟨m, hm1, hm2⟩ := harr k p r hk hv
+    have hml := phIdx_lt _ _ _ hm1
+    refine ⟨m, (w.arrs a).getD m im, by simpa [World.phasesOf, hm] using hm1, ?_, hm2⟩
+    simp only [World.rowIdsOf, hm]
+    exact getElem?_of_lt_getD (by omega)
+  · intro m tr hmt hall
+    simp only [World.rowIdsOf, hm] at hmt
+    simp only [World.phasesOf, hm] at hall
+    have hml : m < (w.arrs a).length := by
+      rcases Nat.lt_or_ge m (w.arrs a).length with h | h
+      · exact h
+      · simp [List.getElem?_eq_none h] at hmt
+    rw [← getD_eq_of_getElem? (d := im) hmt]
+    exact hrest m (by omega) hall
+
+/-- `MaterialIndexer.copy_like(ChemicalIndexer)` -/
+theorem matCopyFromChem_value (w : World) (same : Bool) (tim : Nat) (tpkg : List Nat) (sr : Nat) (sp : Ph)
+    (spkg : List Nat) (w' : World) (ps : List Ph) (a : Nat) (hm : w.imols tim = .mat ps a)
+    (hnp : normPh ps = ps) (hlen : (w.arrs a).length = ps.length) (hnd : (w.arrs a).Nodup)
+    (hlt : ∀ r ∈ w.arrs a, r < w.next) (hsr : sr ∉ w.arrs a) (hsrlt : sr < w.next)
+    (h : w.matCopyFromChem same tim tpkg sr sp spkg = .ok w') :
+    HoldsExactly w' tim [sp] [w.rows sr] ∧ WFImol w' tim ∧ w'.phs = w.phs ∧ w'.tcs = w.tcs ∧ w'.strs = w.strs ∧
+    (∀ x, x < w.next → x ∉ w.arrs a → w'.rows x = w.rows x) ∧
+    (∀ y, y ≠ tim → w'.imols y = w.imols y) ∧ (∀ y, y ≠ a → w'.arrs y = w.arrs y) := by
+  unfold World.matCopyFromChem at h
+  simp only at h
+  have hrows0 : w.rowIdsOf tim = w.arrs a := by simp [World.rowIdsOf, hm]
+  rw [hrows0] at h
+  -- after emptying
+  have hc := clearRows_rows (w.arrs a) w
+  generalize hw1 : w.clearRows (w.arrs a) = w1 at h hc
+  have hm1 : w1.imols tim = .mat ps a := by rw [← hw1]; simpa using hm
+  have ha1 : w1.arrs = w.arrs := by rw [← hw1]; simp
+  have hn1 : w1.next = w.next := by rw [← hw1]; simp
+  have hph1 : w1.phasesOf tim = ps := by simp [World.phasesOf, hm1]
+  rw [hph1] at h
+  -- after the optional expansion
+  have hE := expand_spec w1 tim [sp] ps a hm1 hnp (by rw [ha1]; exact hlen) (by rw [ha1]; exact hnd)
+    (by rw [ha1, hn1]; exact hlt)
+  have hkey : ∃ w2 ps2, (if (phIdx ps sp).isNone then w1.expand tim [sp] else w1) = w2 ∧
+      w2.imols tim = .mat ps2 a ∧ normPh ps2 = ps2 ∧ (w2.arrs a).length = ps2.length ∧ (w2.arrs a).Nodup ∧
+      (∀ r ∈ w2.arrs a, r ∈ w.arrs a ∨ w.next ≤ r) ∧ (∀ x, x < w.next → w2.rows x = w1.rows x) ∧
+      (∀ r ∈ w2.arrs a, w.next ≤ r → w2.rows r = Row.zero) ∧ w2.phs = w1.phs ∧ w2.tcs = w1.tcs ∧
+      w2.strs = w1.strs ∧ (∀ y, y ≠ tim → w2.imols y = w1.imols y) ∧ (∀ y, y ≠ a → w2.arrs y = w1.arrs y) := by
+    split
+    · obtain ⟨e1, e2, e3, e4, e5, e6, e7, e8, e9, e10, e11, _⟩ := hE
+      refine ⟨_, _, rfl, e1, ?_, e2, e3, ?_, ?_, ?_, e7, e8, e9, e10, e11⟩
+      · exact normPh_congr _ _ (mem_normPh _)
+      · intro r hr; rcases e4 r hr with h | h
+        · rw [ha1] at h; exact Or.inl h
+        · rw [hn1] at h; exact Or.inr h.1
+      · intro x hx; exact e5 x (by rw [hn1]; exact hx)
+      · intro r hr hge; exact e6 r hr (by rw [hn1]; exact hge)
+    · refine ⟨w1, ps, rfl, hm1, hnp, by rw [ha1]; exact hlen, by rw [ha1]; exact hnd, ?_, fun _ _ => rfl, ?_, rfl, rfl, rfl,
+        fun _ _ => rfl, fun _ _ => rfl⟩
+      · intro r hr; rw [ha1] at hr; exact Or.inl hr
+      · intro r hr hge; rw [ha1] at hr; exact absurd (hlt r hr) (by omega)
+  obtain ⟨w2, ps2, hw2, hm2, hnp2, hlen2, hnd2, hsub2, hold2, hzero2, hphs2, htcs2, hstrs2, himols2, harrs2⟩ := hkey
+  rw [hw2] at h
+  have hph2 : w2.phasesOf tim = ps2 := by simp [World.phasesOf, hm2]
+  have hri2 : w2.rowIdsOf tim = w2.arrs a := by simp [World.rowIdsOf, hm2]
+  rw [hph2, hri2] at h
+  -- every row of the target is empty now
+  have hallzero : ∀ r ∈ w2.arrs a, w2.rows r = Row.zero := by
+    intro r hr
+    rcases hsub2 r hr with h | h
+    · rw [hold2 r (hlt r h), hc r]; simp [h]
+    · exact hzero2 r hr h
+  have hsr2 : w2.rows sr = w.rows sr := by
+    rw [hold2 sr hsrlt, hc sr]; simp [hsr]
+  split at h
+  · cases h
+  · next k hk =>
+    have hkl := phIdx_lt _ _ _ hk
+    have hout : w' = w2.setRow ((w2.arrs a).getD k tim) (w2.rows sr) := by
+      split at h
+      · cases h; rfl
+      · cases h
+    subst hout
+    have hm' : (w2.setRow ((w2.arrs a).getD k tim) (w2.rows sr)).imols tim = .mat ps2 a := by simpa using hm2
+    refine ⟨?_, ?_, by simp [hphs2, ← hw1], by simp [htcs2, ← hw1], by simp [hstrs2, ← hw1], ?_, ?_, ?_⟩
+    · apply holds_mat hm' (by simpa using hlen2)
+      · intro k' p r hk' hv
+        cases k' with
+        | zero =>
+          simp at hk' hv; subst hk' hv
+          exact ⟨k, hk, by simp [hsr2]⟩
+        | succ k' => simp at hk'
+      · intro m hml hall
+        have hmk : m ≠ k := fun e => hall sp (by simp) (by rw [e]; exact hk)
+        have hne : (w2.arrs a).getD m tim ≠ (w2.arrs a).getD k tim := by
+          intro e
+          have hm1' : m < (w2.arrs a).length := by omega
+          have hk1' : k < (w2.arrs a).length := by omega
+          simp [List.getD_eq_getElem?_getD, List.getElem?_eq_getElem hm1', List.getElem?_eq_getElem hk1'] at e
+          exact hmk (nodup_getElem_inj' _ hnd2 m k hm1' hk1' e)
+        simp only [setRow_rows, setRow_arrs, upd_ne _ _ _ _ hne]
+        apply hallzero
+        have hm1' : m < (w2.arrs a).length := by omega
+        simp [List.getD_eq_getElem?_getD, List.getElem?_eq_getElem hm1']
+    · simp only [WFImol, hm']
+      exact ⟨hnp2, by simpa using hlen2, by simpa using hnd2⟩
+    · intro x hx hxa
+      have hne : x ≠ (w2.arrs a).getD k tim := by
+        intro e
+        have hk1' : k < (w2.arrs a).length := by omega
+        have hmem : (w2.arrs a).getD k tim ∈ w2.arrs a := by
+          simp [List.getD_eq_getElem?_getD, List.getElem?_eq_getElem hk1']
+        rcases hsub2 _ hmem with h | h
+        · exact hxa (e ▸ h)
+        · omega
+      simp only [setRow_rows, upd_ne _ _ _ _ hne]
+      rw [hold2 x hx, hc x]; simp [hxa]
+    · intro y hy; simp [himols2 y hy, ← hw1]
+    · intro y hy; simp [harrs2 y hy, ← hw1]
+
+
+def subsetsOf : List Ph → List (List Ph)
+  | [] => [[]]
+  | x :: xs => subsetsOf xs ++ (subsetsOf xs).map (x :: ·)
+
+theorem filter_mem_subsetsOf (f : Ph → Bool) : ∀ xs : List Ph, xs.filter f ∈ subsetsOf xs := by
+  intro xs
+  induction xs with
+  | nil => simp [subsetsOf]
+  | cons x xs ih =>
+    simp only [subsetsOf, List.filter_cons, List.mem_append, List.mem_map]
+    split
+    · right; exact ⟨_, ih, rfl⟩
+    · left; exact ih
+
+theorem normPh_mem_subsets (l : List Ph) : normPh l ∈ subsetsOf Ph.all := filter_mem_subsetsOf _ _
+
+/-- complete table over the 32 × 32 pairs of phase tuples: with "compatible" tuples (equal up to
+case) the phase lookup sends different source phases to different rows -/
+theorem compat_inj_table : ∀ ps ∈ subsetsOf Ph.all, ∀ qs ∈ subsetsOf Ph.all, compatPh ps qs = true →
+    ∀ q1 ∈ qs, ∀ q2 ∈ qs, phIdx ps q1 = phIdx ps q2 → phIdx ps q1 ≠ none → q1 = q2 := by
+  decide +kernel
+
+theorem zip_fst_inj {α β : Type} : ∀ (l1 : List α) (l2 : List β), l1.Nodup → ∀ a ∈ l1.zip l2, ∀ b ∈ l1.zip l2,
+    a.1 = b.1 → a = b := by
+  intro l1
+  induction l1 with
+  | nil => intro l2 _ a ha; simp at ha
+  | cons x xs ih =>
+    intro l2 hnd a ha b hb hab
+    cases l2 with
+    | nil => simp at ha
+    | cons y ys =>
+      rw [List.nodup_cons] at hnd
+      simp only [List.zip_cons_cons, List.mem_cons] at ha hb
+      rcases ha with rfl | ha <;> rcases hb with rfl | hb
+      · rfl
+      · exact absurd (by have := (List.of_mem_zip hb).1; simp at hab; rw [hab]; exact this) hnd.1
+      · exact absurd (by have := (List.of_mem_zip ha).1; simp at hab; rw [← hab]; exact this) hnd.1
+      · exact ih ys hnd.2 a ha b hb hab
+
+theorem zip_nodup_of_fst {α β : Type} : ∀ (l1 : List α) (l2 : List β), l1.Nodup → (l1.zip l2).Nodup := by
+  intro l1
+  induction l1 with
+  | nil => intro l2 _; simp
+  | cons x xs ih =>
+    intro l2 hnd
+    cases l2 with
+    | nil => simp
+    | cons y ys =>
+      rw [List.nodup_cons] at hnd
+      simp only [List.zip_cons_cons, List.nodup_cons]
+      exact ⟨fun hmem => hnd.1 (List.of_mem_zip hmem).1, ih ys hnd.2⟩
+
+theorem getElem?_zip_mem {α β : Type} (l1 : List α) (l2 : List β) (k : Nat) (a : α) (b : β)
+    (h1 : l1[k]? = some a) (h2 : l2[k]? = some b) : (a, b) ∈ l1.zip l2 := by
+  apply List.mem_of_getElem? (i := k)
+  simp [List.getElem?_zip_eq_some, h1, h2]
+
+theorem assignByPhase_fields (tps : List Ph) (trows : List Nat) (d : Nat) (l : List (Ph × Nat)) :
+    ∀ (w w' : World), w.assignByPhase tps trows d l = .ok w' →
+      w'.imols = w.imols ∧ w'.arrs = w.arrs ∧ w'.phs = w.phs ∧ w'.tcs = w.tcs ∧ w'.strs = w.strs := by
+  induction l with
+  | nil => intro w w' h; cases h; simp
+  | cons a l ih =>
+    intro w w' h
+    obtain ⟨q, sr⟩ := a
+    simp only [World.assignByPhase] at h
+    split at h
+    · cases h
+    · simpa using ih _ w' h
+
+/-- `MaterialIndexer.copy_like(MaterialIndexer)` -/
+theorem matCopyFromMat_value (w : World) (same : Bool) (tim : Nat) (tpkg : List Nat) (sim : Nat)
+    (spkg : List Nat) (w' : World) (ps qs : List Ph) (a b : Nat)
+    (hm : w.imols tim = .mat ps a) (hms : w.imols sim = .mat qs b) (hne : tim ≠ sim) (hab : a ≠ b)
+    (hnp : normPh ps = ps) (hlen : (w.arrs a).length = ps.length) (hnd : (w.arrs a).Nodup)
+    (hlt : ∀ r ∈ w.arrs a, r < w.next)
+    (hnq : normPh qs = qs) (hlenq : (w.arrs b).length = qs.length) (hltq : ∀ r ∈ w.arrs b, r < w.next)
+    (hap : ∀ x ∈ w.arrs a, x ∉ w.arrs b)
+    (h : w.matCopyFromMat same tim tpkg sim spkg = .ok w') :
+    HoldsExactly w' tim qs ((w.arrs b).map w.rows) ∧ WFImol w' tim ∧ w'.phs = w.phs ∧ w'.tcs = w.tcs ∧
+    w'.strs = w.strs ∧ (∀ x, x < w.next → x ∉ w.arrs a → w'.rows x = w.rows x) ∧
+    (∀ y, y ≠ tim → w'.imols y = w.imols y) ∧ (∀ y, y ≠ a → w'.arrs y = w.arrs y) ∧
+    (ps = qs → w'.imols tim = .mat ps a) := by
+  have hqnd : qs.Nodup := by rw [← hnq]; exact normPh_nodup _
+  have hpnd : ps.Nodup := by rw [← hnp]; exact normPh_nodup _
+  unfold World.matCopyFromMat at h
+  simp only [hne, if_false] at h
+  have hr0 : w.rowIdsOf tim = w.arrs a := by simp [World.rowIdsOf, hm]
+  have hr0s : w.rowIdsOf sim = w.arrs b := by simp [World.rowIdsOf, hms]
+  have hp0 : w.phasesOf tim = ps := by simp [World.phasesOf, hm]
+  have hp0s : w.phasesOf sim = qs := by simp [World.phasesOf, hms]
+  rw [hr0, hr0s, hp0, hp0s] at h
+  have hapb : ∀ x ∈ w.arrs b, x ∉ w.arrs a := fun x hx hxa => hap x hxa hx
+  -- a common ending: the rows of the target read like the rows of the source
+  have finish_same : ∀ w1 : World, w1.imols = w.imols → w1.arrs = w.arrs → w1.phs = w.phs → w1.tcs = w.tcs →
+      w1.strs = w.strs → (∀ x, x ∉ w.arrs a → w1.rows x = w.rows x) → ps = qs →
+      (w.arrs a).map w1.rows = (w.arrs b).map w.rows →
+      HoldsExactly w1 tim qs ((w.arrs b).map w.rows) ∧ WFImol w1 tim ∧ w1.phs = w.phs ∧ w1.tcs = w.tcs ∧
+      w1.strs = w.strs ∧ (∀ x, x < w.next → x ∉ w.arrs a → w1.rows x = w.rows x) ∧
+      (∀ y, y ≠ tim → w1.imols y = w.imols y) ∧ (∀ y, y ≠ a → w1.arrs y = w.arrs y) ∧
+      (ps = qs → w1.imols tim = .mat ps a) := by
+    intro w1 hi ha hp ht hs hrow hpq hread
+    have hm1 : w1.imols tim = .mat ps a := by rw [hi]; exact hm
+    refine ⟨?_, ?_, hp, ht, hs, fun x _ hx => hrow x hx, fun y _ => by rw [hi], fun y _ => by rw [ha], fun _ => hm1⟩
+    · apply holds_mat hm1 (by rw [ha]; exact hlen)
+      · intro k p r hk hv
+        refine ⟨k, phIdx_of_idxOf (idxOf?_getElem_nodup ps hpnd k p (by rw [hpq]; exact hk)), ?_⟩
+        have := congrArg (fun l => l[k]?) hread
+        simp only [List.getElem?_map] at this hv
+        rw [hv] at this
+        have hkl : k < (w.arrs a).length := by
+          have := (List.getElem?_eq_some_iff.mp hk).1
+          rw [hlen, hpq]; exact this
+        rw [ha]
+        simp [List.getElem?_eq_getElem hkl] at this
+        simp [List.getD_eq_getElem?_getD, List.getElem?_eq_getElem hkl, this]
+      · intro m hml hall
+        exfalso
+        have hmem : ps[m] ∈ qs := by rw [← hpq]; exact List.getElem_mem hml
+        exact hall ps[m] hmem
+          (phIdx_of_idxOf (idxOf?_getElem_nodup ps hpnd m _ (by simp [List.getElem?_eq_getElem hml])))
+    · simp only [WFImol, hm1]; rw [ha]; exact ⟨hnp, hlen, hnd⟩
+  split at h
+  · next hpq =>
+    split at h
+    · -- same package: row by row
+      cases h
+      apply finish_same _ (by simp) (by simp) (by simp) (by simp) (by simp) ?_ hpq
+      · exact copyRowsSeq_read _ _ w hnd hap (by rw [hlen, hlenq, hpq])
+      · intro x hx
+        apply copyRowsSeq_other
+        intro hmem
+        simp at hmem
+        obtain ⟨y, hy⟩ := hmem
+        exact hx (List.of_mem_zip hy).1
+    · -- other package: empty, check, row by row
+      have hc := clearRows_rows (w.arrs a) w
+      generalize hw1 : w.clearRows (w.arrs a) = w1 at h hc
+      have e1 : w1.rowIdsOf tim = w.arrs a := by rw [← hw1]; simp [World.rowIdsOf, hm]
+      have e2 : w1.rowIdsOf sim = w.arrs b := by rw [← hw1]; simp [World.rowIdsOf, hms]
+      rw [e1, e2] at h
+      split at h
+      · cases h
+        apply finish_same _ (by simp [← hw1]) (by simp [← hw1]) (by simp [← hw1]) (by simp [← hw1])
+          (by simp [← hw1]) ?_ hpq
+        · rw [copyRowsSeq_read _ _ w1 hnd hap (by rw [hlen, hlenq, hpq])]
+          apply List.map_congr_left
+          intro r hr
+          rw [hc r]; simp [hapb r hr]
+        · intro x hx
+          rw [copyRowsSeq_other]
+          · rw [hc x]; simp [hx]
+          · intro hmem
+            simp at hmem
+            obtain ⟨y, hy⟩ := hmem
+            exact hx (List.of_mem_zip hy).1
+      · cases h
+  · next hpq =>
+    -- different phase tuples: expand unless compatible, empty, then row by row by phase
+    have hE := expand_spec w tim qs ps a hm hnp hlen hnd hlt
+    have hkey : ∃ w1 ps1, (if compatPh ps qs then w else w.expand tim qs) = w1 ∧
+        w1.imols tim = .mat ps1 a ∧ normPh ps1 = ps1 ∧ (w1.arrs a).length = ps1.length ∧ (w1.arrs a).Nodup ∧
+        (∀ r ∈ w1.arrs a, r ∈ w.arrs a ∨ w.next ≤ r) ∧ (∀ x, x < w.next → w1.rows x = w.rows x) ∧
+        w1.phs = w.phs ∧ w1.tcs = w.tcs ∧ w1.strs = w.strs ∧ (∀ y, y ≠ tim → w1.imols y = w.imols y) ∧
+        (∀ y, y ≠ a → w1.arrs y = w.arrs y) ∧
+        (∀ a1 ∈ qs, ∀ a2 ∈ qs, phIdx ps1 a1 = phIdx ps1 a2 → phIdx ps1 a1 ≠ none → a1 = a2) := by
+      split
+      · next hcomp =>
+        refine ⟨w, ps, rfl, hm, hnp, hlen, hnd, fun r hr => Or.inl hr, fun _ _ => rfl, rfl, rfl, rfl,
+          fun _ _ => rfl, fun _ _ => rfl, ?_⟩
+        have h1 := normPh_mem_subsets ps; rw [hnp] at h1
+        have h2 := normPh_mem_subsets qs; rw [hnq] at h2
+        exact compat_inj_table ps h1 qs h2 hcomp
+      · obtain ⟨e1, e2, e3, e4, e5, _, e7, e8, e9, e10, e11, _⟩ := hE
+        refine ⟨_, _, rfl, e1, normPh_congr _ _ (mem_normPh _), e2, e3, ?_, e5, e7, e8, e9, e10, e11, ?_⟩
+        · intro r hr; rcases e4 r hr with h | h
+          · exact Or.inl h
+          · exact Or.inr h.1
+        · intro q1 hq1 q2 hq2 heq _
+          have hm1 : q1 ∈ normPh (ps ++ qs) := by rw [mem_normPh]; simp [hq1]
+          have hm2 : q2 ∈ normPh (ps ++ qs) := by rw [mem_normPh]; simp [hq2]
+          obtain ⟨i1, hi1⟩ := idxOf?_some_of_mem _ _ hm1
+          obtain ⟨i2, hi2⟩ := idxOf?_some_of_mem _ _ hm2
+          rw [phIdx_of_idxOf hi1, phIdx_of_idxOf hi2] at heq
+          injection heq with heq
+          subst heq
+          have := (idxOf?_lt _ _ _ hi1).2.symm.trans (idxOf?_lt _ _ _ hi2).2
+          injection this
+    obtain ⟨w1, ps1, hw1, hm1, hnp1, hlen1, hnd1, hsub1, hold1, hphs1, htcs1, hstrs1, himols1, harrs1, hinj1⟩ := hkey
+    rw [hw1] at h
+    have hc := clearRows_rows (w1.arrs a) w1
+    have e0 : w1.rowIdsOf tim = w1.arrs a := by simp [World.rowIdsOf, hm1]
+    rw [e0] at h
+    generalize hw2 : w1.clearRows (w1.arrs a) = w2 at h hc
+    have hm2 : w2.imols tim = .mat ps1 a := by rw [← hw2]; simpa using hm1
+    have ha2 : w2.arrs = w1.arrs := by rw [← hw2]; simp
+    have hms2 : w2.imols sim = .mat qs b := by
+      rw [← hw2]; simp; rw [himols1 sim (Ne.symm hne)]; exact hms
+    have hb2 : w2.arrs b = w.arrs b := by rw [ha2, harrs1 b (Ne.symm hab)]
+    have e1 : w2.rowIdsOf tim = w1.arrs a := by simp [World.rowIdsOf, hm2, ha2]
+    have e2 : w2.rowIdsOf sim = w.arrs b := by simp [World.rowIdsOf, hms2, hb2]
+    have e3 : w2.phasesOf tim = ps1 := by simp [World.phasesOf, hm2]
+    rw [e1, e2, e3] at h
+    have hbrow : ∀ r ∈ w.arrs b, w2.rows r = w.rows r := by
+      intro r hr
+      have hnot : r ∉ w1.arrs a := by
+        intro hmem
+        rcases hsub1 r hmem with h | h
+        · exact hapb r hr h
+        · have := hltq r hr; omega
+      rw [hc r]; simp [hnot]; exact hold1 r (hltq r hr)
+    split at h
+    · obtain ⟨s1, s2⟩ := assignByPhase_spec ps1 (w1.arrs a) tim (qs.zip (w.arrs b)) w2 w' h
+        (zip_nodup_of_fst _ _ hqnd)
+        (fun x hx y hy heq hnone => zip_fst_inj _ _ hqnd x hx y hy
+          (hinj1 x.1 (List.of_mem_zip hx).1 y.1 (List.of_mem_zip hy).1 heq hnone))
+        (by
+          intro m hml y hy heq
+          have hml' : m < (w1.arrs a).length := by omega
+          have hmem : (w1.arrs a).getD m tim ∈ w1.arrs a := by
+            simp [List.getD_eq_getElem?_getD, List.getElem?_eq_getElem hml']
+          have hyb := (List.of_mem_zip hy).2
+          rw [heq] at hmem
+          rcases hsub1 _ hmem with h | h
+          · exact hapb _ hyb h
+          · have := hltq _ hyb; omega)
+        (by
+          intro m n hm' hn' heq
+          have hm1' : m < (w1.arrs a).length := by omega
+          have hn1' : n < (w1.arrs a).length := by omega
+          simp [List.getD_eq_getElem?_getD, List.getElem?_eq_getElem hm1', List.getElem?_eq_getElem hn1'] at heq
+          exact nodup_getElem_inj' _ hnd1 m n hm1' hn1' heq)
+      obtain ⟨f1, f2, f3, f4, f5⟩ := assignByPhase_fields ps1 (w1.arrs a) tim (qs.zip (w.arrs b)) w2 w' h
+      have hm' : w'.imols tim = .mat ps1 a := by rw [f1]; exact hm2
+      have ha' : w'.arrs a = w1.arrs a := by rw [f2, ha2]
+      have hgetmem : ∀ m, m < ps1.length → (w1.arrs a).getD m tim ∈ w1.arrs a := by
+        intro m hml
+        have hml' : m < (w1.arrs a).length := by omega
+        simp [List.getD_eq_getElem?_getD, List.getElem?_eq_getElem hml']
+      have hgetinj : ∀ m n, m < ps1.length → n < ps1.length →
+          (w1.arrs a).getD m tim = (w1.arrs a).getD n tim → m = n := by
+        intro m n hm'' hn'' heq
+        have hm1' : m < (w1.arrs a).length := by omega
+        have hn1' : n < (w1.arrs a).length := by omega
+        simp [List.getD_eq_getElem?_getD, List.getElem?_eq_getElem hm1', List.getElem?_eq_getElem hn1'] at heq
+        exact nodup_getElem_inj' _ hnd1 m n hm1' hn1' heq
+      refine ⟨?_, ?_, by rw [f3, ← hw2]; simp [hphs1], by rw [f4, ← hw2]; simp [htcs1],
+        by rw [f5, ← hw2]; simp [hstrs1], ?_, ?_, ?_, fun h => absurd h hpq⟩
+      · apply holds_mat hm' (by rw [ha']; exact hlen1)
+        · intro k p r hk hv
+          simp only [List.getElem?_map] at hv
+          cases hbk : (w.arrs b)[k]? with
+          | none => simp [hbk] at hv
+          | some rb =>
+            simp [hbk] at hv
+            obtain ⟨m, hm1', hm2'⟩ := s1 (p, rb) (getElem?_zip_mem _ _ k p rb hk hbk)
+            refine ⟨m, hm1', ?_⟩
+            rw [ha', hm2', hbrow rb (List.mem_of_getElem? hbk), hv]
+        · intro m hml hall
+          rw [ha', s2]
+          · rw [hc, if_pos (hgetmem m hml)]
+          · intro y hy m' hm'' heq
+            have := hgetinj m' m (phIdx_lt _ _ _ hm'') hml heq
+            subst this
+            exact hall y.1 (List.of_mem_zip hy).1 hm''
+      · simp only [WFImol, hm']; rw [ha']; exact ⟨hnp1, hlen1, hnd1⟩
+      · intro x hx hxa
+        have hx1 : x ∉ w1.arrs a := by
+          intro hmem
+          rcases hsub1 x hmem with h | h
+          · exact hxa h
+          · omega
+        rw [s2, hc, if_neg hx1]
+        · exact hold1 x hx
+        · intro y hy m hm'' heq
+          exact hx1 (heq ▸ hgetmem m (phIdx_lt _ _ _ hm''))
+      · intro y hy; rw [f1, ← hw2]; simp; exact himols1 y hy
+      · intro y hy; rw [f2, ha2]; exact harrs1 y hy
+    · cases h
+
+
+
+theorem holds_congr {w w' : World} {im : Nat} {sps : List Ph} {sv : List Row} (h : HoldsExactly w im sps sv)
+    (hi : w'.imols = w.imols) (ha : w'.arrs = w.arrs) (hr : w'.rows = w.rows) (hp : w'.phs = w.phs) :
+    HoldsExactly w' im sps sv := by
+  have h1 : w'.phasesOf im = w.phasesOf im := by simp [World.phasesOf, hi, hp]
+  have h2 : w'.rowIdsOf im = w.rowIdsOf im := by simp [World.rowIdsOf, hi, ha]
+  constructor
+  · intro k p r hk hv
+    obtain ⟨m, tr, a1, a2, a3⟩ := h.arrive k p r hk hv
+    exact ⟨m, tr, by rw [h1]; exact a1, by rw [h2]; exact a2, by rw [hr]; exact a3⟩
+  · intro m tr hm hall
+    rw [hr]
+    exact h.rest m tr (by rw [← h2]; exact hm) (by rw [← h1]; exact hall)
+
+theorem wf_congr {w w' : World} {im : Nat} (h : WFImol w im) (hi : w'.imols = w.imols) (ha : w'.arrs = w.arrs) :
+    WFImol w' im := by
+  simpa [WFImol, hi, ha] using h
+
+/-- target and source share no flow data -/
+structure Apart (w : World) (t s : Nat) : Prop where
+  rows : ∀ x ∈ w.rowIdsOf (w.strs t).imol, x ∉ w.rowIdsOf (w.strs s).imol
+  imol : (w.strs t).imol ≠ (w.strs s).imol
+  arr : ∀ ps a qs b, w.imols (w.strs t).imol = .mat ps a → w.imols (w.strs s).imol = .mat qs b → a ≠ b
+
+/-- T and P after the final `ThermalCondition.copy_like` -/
+theorem tcCopyLike_TP (w1 : World) (t s : Nat) :
+    ((w1.tcCopyLike t s).observe t).T = (w1.tcs (w1.strs s).tc).1 ∧
+    ((w1.tcCopyLike t s).observe t).P = (w1.tcs (w1.strs s).tc).2 := by
+  simp [World.tcCopyLike, World.observe]
+
+
+/-- What `target.copy_like(source)` establishes. -/
+structure CopyLikeResult (w : World) (t s : Nat) (w' : World) : Prop where
+  /-- temperature and pressure are the source's -/
+  T : (w'.observe t).T = (w.observe s).T
+  P : (w'.observe t).P = (w.observe s).P
+  /-- the target holds exactly the material of the source, phase by phase -/
+  holds : HoldsExactly w' (w'.strs t).imol (w.observe s).phases (w.observe s).flows
+  /-- the target is well formed -/
+  wf : WFImol w' (w'.strs t).imol
+  /-- a single-phase target ends with exactly the phase tuple of the source (staying single-phase
+  for a one-phase source, becoming multi-phase otherwise) -/
+  single : w.isMat (w.strs t).imol = false → (w'.observe t).phases = (w.observe s).phases
+
+theorem copyLike_result (w : World) (t s : Nat) (w' : World) (hsc : Scoped w) (ht : t < w.nS) (hs : s < w.nS)
+    (hwt : WFImol w (w.strs t).imol) (hws : WFImol w (w.strs s).imol) (hap : Apart w t s)
+    (h : w.copyLike t s = .ok w') : CopyLikeResult w t s w' := by
+  unfold World.copyLike at h
+  simp only at h
+  split at h
+  · cases h
+  · cases hmt : w.imols (w.strs t).imol with
+    | chem tph trow =>
+      cases hms : w.imols (w.strs s).imol with
+      | chem sph srow =>
+        simp only [hmt, hms, hap.imol, if_false] at h
+        obtain ⟨w1, h1, rfl⟩ := ofExcept_bind_ok _ _ _ h
+        have hne : trow ≠ srow := by
+          have := hap.rows trow (by simp [World.rowIdsOf, hmt])
+          simpa [World.rowIdsOf, hms] using this
+        obtain ⟨v1, v2, v3, v4⟩ := chemCopyLike_value _ _ _ _ _ _ _ _ _ hne h1
+        obtain ⟨_, f1, f2, f3, _, _, f6, _⟩ := chemCopyLike_spec _ _ _ _ _ _ _ _ _ h1
+        have hm1 : w1.imols (w.strs t).imol = .chem tph trow := by rw [f1]; exact hmt
+        have hobs : (w.observe s).phases = [w.phs sph] ∧ (w.observe s).flows = [w.rows srow] := by
+          simp [World.observe, World.phasesOf, World.rowIdsOf, hms]
+        have hstr : (w1.tcCopyLike t s).strs = w.strs := by simp [World.tcCopyLike, f3]
+        have hT := tcCopyLike_TP w1 t s
+        refine ⟨?_, ?_, ?_, ?_, ?_⟩
+        · rw [hT.1, f3, f6]; simp [World.observe]
+        · rw [hT.2, f3, f6]; simp [World.observe]
+        · rw [hstr, hobs.1, hobs.2]
+          exact holds_congr (holds_chem hm1 _ _ v2 v1) (by simp [World.tcCopyLike]) (by simp [World.tcCopyLike])
+            (by simp [World.tcCopyLike]) (by simp [World.tcCopyLike])
+        · rw [hstr]; simp [WFImol, World.tcCopyLike, hm1]
+        · intro _
+          rw [hobs.1]
+          simp [World.observe, World.tcCopyLike, f3, World.phasesOf, hm1, v2]
+      | mat qs sa =>
+        simp only [hmt, hms] at h
+        obtain ⟨hnq, hlenq, hndq⟩ : normPh qs = qs ∧ (w.arrs sa).length = qs.length ∧ (w.arrs sa).Nodup := by
+          simpa [WFImol, hms] using hws
+        have hobs : (w.observe s).phases = qs ∧ (w.observe s).flows = (w.arrs sa).map w.rows := by
+          simp [World.observe, World.phasesOf, World.rowIdsOf, hms]
+        split at h
+        · next q =>
+          -- one-phase MultiStream source
+          obtain ⟨w1, h1, rfl⟩ := ofExcept_bind_ok _ _ _ h
+          have hl1 : (w.arrs sa).length = 1 := by simpa using hlenq
+          obtain ⟨sr, hsr⟩ : ∃ sr, w.arrs sa = [sr] := by
+            cases hra : w.arrs sa with
+            | nil => simp [hra] at hl1
+            | cons x xs =>
+              cases xs with
+              | nil => exact ⟨x, rfl⟩
+              | cons y ys => simp [hra] at hl1
+          have hne : trow ≠ sr := by
+            have := hap.rows trow (by simp [World.rowIdsOf, hmt])
+            simpa [World.rowIdsOf, hms, hsr] using this
+          have hsr' : ((w.setPh tph q).arrs sa).getD 0 0 = sr := by simp [hsr]
+          rw [hsr'] at h1
+          obtain ⟨v1, v2, v3, v4⟩ := chemCopyLike_value _ _ _ _ _ _ _ _ _ hne h1
+          obtain ⟨_, f1, f2, f3, _, _, f6, _⟩ := chemCopyLike_spec _ _ _ _ _ _ _ _ _ h1
+          have hm1 : w1.imols (w.strs t).imol = .chem tph trow := by rw [f1]; simpa using hmt
+          have hstr : (w1.tcCopyLike t s).strs = w.strs := by simp [World.tcCopyLike, f3]
+          have hT := tcCopyLike_TP w1 t s
+          refine ⟨?_, ?_, ?_, ?_, ?_⟩
+          · rw [hT.1, f3, f6]; simp [World.observe]
+          · rw [hT.2, f3, f6]; simp [World.observe]
+          · rw [hstr, hobs.1, hobs.2, hsr]
+            exact holds_congr (holds_chem hm1 _ _ v2 (by rw [v1]; simp)) (by simp [World.tcCopyLike])
+              (by simp [World.tcCopyLike]) (by simp [World.tcCopyLike]) (by simp [World.tcCopyLike])
+          · rw [hstr]; simp [WFImol, World.tcCopyLike, hm1]
+          · intro _
+            rw [hobs.1]
+            simp [World.observe, World.tcCopyLike, f3, World.phasesOf, hm1, v2]
+        · -- the target becomes a MultiStream over the phases of the source
+          obtain ⟨w3, h3, rfl⟩ := ofExcept_bind_ok _ _ _ h
+          have hts : t ≠ s := by intro e; subst e; rw [hmt] at hms; cases hms
+          have hSim : (w.strs s).imol < w.next := hsc s hs _ (mem_fp_imol w s)
+          have hsa : sa < w.next := hsc s hs _ (mem_fp_mat hms).1
+          have hltq : ∀ r ∈ w.arrs sa, r < w.next := fun r hr => hsc s hs r ((mem_fp_mat hms).2 r hr)
+          unfold World.blankMat at h3
+          simp only [newImol_snd, newArr_snd, newArr_next, newRows_next, List.length_map] at h3
+          -- names for the new objects
+          generalize hzs : ((normPh qs).map fun _ => Row.zero) = zs at h3
+          have hzl : zs.length = (normPh qs).length := by rw [← hzs]; simp
+          have hids := newRows_ids zs w
+          have hold := newRows_old w zs
+          generalize hnr : w.newRows zs = nr at h3 hids hold
+          obtain ⟨w1, rs⟩ := nr
+          simp only at h3 hids hold
+          have hn1 : w1.next = w.next + zs.length := by
+            have := newRows_next w zs; rw [hnr] at this; exact this
+          have himols1 : w1.imols = w.imols := by have := newRows_imols w zs; rw [hnr] at this; exact this
+          have harrs1 : w1.arrs = w.arrs := by have := newRows_arrs w zs; rw [hnr] at this; exact this
+          have hstrs1 : w1.strs = w.strs := by have := newRows_strs w zs; rw [hnr] at this; exact this
+          have htcs1 : w1.tcs = w.tcs := by have := newRows_tcs w zs; rw [hnr] at this; exact this
+          have hrs_mem : ∀ r ∈ rs, w.next ≤ r ∧ r < w.next + zs.length := by
+            intro r hr; rw [hids] at hr; exact mem_range'_lt hr
+          have hN : w1.next = w.next + (normPh qs).length := by rw [hn1, hzl]
+          obtain ⟨N, hNdef⟩ : ∃ N, N = w.next + (normPh qs).length := ⟨_, rfl⟩
+          rw [← hNdef] at h3 hN
+          have harne : N ≠ sa := by omega
+          have himne : N + 1 ≠ (w.strs s).imol := by omega
+          obtain ⟨W2, hW2⟩ : ∃ W2, W2 = ((w1.newArr rs).1.newImol (Imol.mat (normPh qs) N)).1.setStr t
+              { w.strs t with imol := N + 1 } := ⟨_, rfl⟩
+          rw [← hW2] at h3
+          have q1 : W2.imols (N + 1) = .mat (normPh qs) N := by rw [hW2]; simp [hN]
+          have q2 : W2.imols (w.strs s).imol = .mat qs sa := by
+            rw [hW2]; simp [hN, upd_ne _ _ _ _ (Ne.symm himne), himols1, hms]
+          have q3 : W2.arrs N = rs := by rw [hW2]; simp [hN]
+          have q4 : W2.arrs sa = w.arrs sa := by rw [hW2]; simp [hN, upd_ne _ _ _ _ (Ne.symm harne), harrs1]
+          have q5 : W2.next = N + 2 := by rw [hW2]; simp [hN]
+          have q6 : W2.rows = w1.rows := by rw [hW2]; simp
+          have q7 : W2.strs = upd w.strs t { w.strs t with imol := N + 1 } := by rw [hW2]; simp [hstrs1]
+          have q8 : W2.tcs = w.tcs := by rw [hW2]; simp [htcs1]
+          obtain ⟨v1, v2, v3, v4, v5, v6, v7, v8, v9⟩ := matCopyFromMat_value W2 _ (N + 1) _ _ _ w3
+            (normPh qs) qs N sa q1 q2 himne harne (normPh_congr _ _ (mem_normPh _))
+            (by rw [q3, hids]; simp [hzl])
+            (by rw [q3, hids]; exact List.nodup_range')
+            (by intro r hr; rw [q3] at hr; have := hrs_mem r hr; rw [q5]; omega) hnq
+            (by rw [q4]; exact hlenq)
+            (by intro r hr; rw [q4] at hr; have := hltq r hr; rw [q5]; omega)
+            (by
+              intro x hx hx2
+              rw [q3] at hx; rw [q4] at hx2
+              have := hrs_mem x hx; have := hltq x hx2; omega) h3
+          have hsrc : (W2.arrs sa).map W2.rows = (w.arrs sa).map w.rows := by
+            rw [q4, q6]
+            apply List.map_congr_left
+            intro r hr
+            exact hold r (hltq r hr)
+          rw [hsrc] at v1
+          have hstr3 : w3.strs = upd w.strs t { w.strs t with imol := N + 1 } := by rw [v5, q7]
+          have htc3 : w3.tcs = w.tcs := by rw [v4, q8]
+          have hT := tcCopyLike_TP w3 t s
+          have hst : (w3.tcCopyLike t s).strs t = { w.strs t with imol := N + 1 } := by
+            simp [World.tcCopyLike, hstr3]
+          have hss : w3.strs s = w.strs s := by rw [hstr3]; exact upd_ne _ _ _ _ (Ne.symm hts)
+          have him3 : w3.imols (N + 1) = .mat (normPh qs) N := v9 hnq
+          refine ⟨?_, ?_, ?_, ?_, ?_⟩
+          · rw [hT.1, hss, htc3]; simp [World.observe]
+          · rw [hT.2, hss, htc3]; simp [World.observe]
+          · rw [hst, hobs.1, hobs.2]
+            exact holds_congr v1 (by simp [World.tcCopyLike]) (by simp [World.tcCopyLike])
+              (by simp [World.tcCopyLike]) (by simp [World.tcCopyLike])
+          · rw [hst]; exact wf_congr v2 (by simp [World.tcCopyLike]) (by simp [World.tcCopyLike])
+          · intro _
+            rw [hobs.1]
+            simp only [World.observe, hst]
+            simp [World.phasesOf, World.tcCopyLike, him3, hnq]
+    | mat ps ta =>
+      obtain ⟨hnp, hlen, hnd⟩ : normPh ps = ps ∧ (w.arrs ta).length = ps.length ∧ (w.arrs ta).Nodup := by
+        simpa [WFImol, hmt] using hwt
+      have hlt : ∀ r ∈ w.arrs ta, r < w.next := fun r hr => hsc t ht r ((mem_fp_mat hmt).2 r hr)
+      have hwrap : ∀ w1 : World, w1.strs = w.strs → w1.tcs = w.tcs →
+          HoldsExactly w1 (w.strs t).imol (w.observe s).phases (w.observe s).flows →
+          WFImol w1 (w.strs t).imol → CopyLikeResult w t s (w1.tcCopyLike t s) := by
+        intro w1 f3 f6 hh hwf
+        have hstr : (w1.tcCopyLike t s).strs = w.strs := by simp [World.tcCopyLike, f3]
+        have hT := tcCopyLike_TP w1 t s
+        refine ⟨?_, ?_, ?_, ?_, ?_⟩
+        · rw [hT.1, f3, f6]; simp [World.observe]
+        · rw [hT.2, f3, f6]; simp [World.observe]
+        · rw [hstr]
+          exact holds_congr hh (by simp [World.tcCopyLike]) (by simp [World.tcCopyLike])
+            (by simp [World.tcCopyLike]) (by simp [World.tcCopyLike])
+        · rw [hstr]; exact wf_congr hwf (by simp [World.tcCopyLike]) (by simp [World.tcCopyLike])
+        · intro hk; simp [World.isMat, hmt] at hk
+      cases hms : w.imols (w.strs s).imol with
+      | chem sph srow =>
+        simp only [hmt, hms] at h
+        obtain ⟨w1, h1, rfl⟩ := ofExcept_bind_ok _ _ _ h
+        have hsr : srow ∉ w.arrs ta := by
+          intro hmem
+          exact hap.rows srow (by simp [World.rowIdsOf, hmt, hmem]) (by simp [World.rowIdsOf, hms])
+        have hsrlt : srow < w.next := hsc s hs srow (mem_fp_chem hms).2
+        obtain ⟨v1, v2, v3, v4, v5, _⟩ := matCopyFromChem_value w _ _ _ srow (w.phs sph) _ w1 ps ta hmt hnp hlen hnd
+          hlt hsr hsrlt h1
+        apply hwrap w1 v5 v4 ?_ v2
+        have hobs : (w.observe s).phases = [w.phs sph] ∧ (w.observe s).flows = [w.rows srow] := by
+          simp [World.observe, World.phasesOf, World.rowIdsOf, hms]
+        rw [hobs.1, hobs.2]; exact v1
+      | mat qs sa =>
+        simp only [hmt, hms] at h
+        obtain ⟨w1, h1, rfl⟩ := ofExcept_bind_ok _ _ _ h
+        obtain ⟨hnq, hlenq, hndq⟩ : normPh qs = qs ∧ (w.arrs sa).length = qs.length ∧ (w.arrs sa).Nodup := by
+          simpa [WFImol, hms] using hws
+        have hltq : ∀ r ∈ w.arrs sa, r < w.next := fun r hr => hsc s hs r ((mem_fp_mat hms).2 r hr)
+        have hapr : ∀ x ∈ w.arrs ta, x ∉ w.arrs sa := by
+          intro x hx
+          have := hap.rows x (by simp [World.rowIdsOf, hmt, hx])
+          simpa [World.rowIdsOf, hms] using this
+        obtain ⟨v1, v2, v3, v4, v5, _⟩ := matCopyFromMat_value w _ _ _ _ _ w1 ps qs ta sa hmt hms hap.imol
+          (hap.arr ps ta qs sa hmt hms) hnp hlen hnd hlt hnq hlenq hltq hapr h1
+        apply hwrap w1 v5 v4 ?_ v2
+        have hobs : (w.observe s).phases = qs ∧ (w.observe s).flows = (w.arrs sa).map w.rows := by
+          simp [World.observe, World.phasesOf, World.rowIdsOf, hms]
+        rw [hobs.1, hobs.2]; exact v1
+
+
 end ThermoVerif.Links
